@@ -11,6 +11,10 @@ P = {
          'constructor, setter and model.setTemperature give the same function AND the same isothermal flag, also after re-specification; one accepted step (Euler or RK4 stage pattern) of PrecipitateBase records '
          'time[n+1] = accepted time and temperature[n+1] = schedule(time[n+1]) with all 16 histories aligned; ghost-state invariant dTemp = T[n] - T_tab, |dTemp| <= maxTempChange for the binary lookup table through the real '
          '_growthRateBinary/_createLookupBinary.', 'break-point lists of length 2-3; staleness bound for the Euler iterator (RK4: monotone-over-a-step schedules only, stated)'),
+ 'C14': ('Real description classes executed on symbolic energy ratios: sphere equivalence area - 2k*removal = 3*volume for boundary/edge/corner (transcendental terms opaque, polynomial identity), k=0 limits 4pi and 4pi/3 (exact trig values), '
+         'invalid marker outside the admissible range; nucleationBarrier: R* >= Rmin, zero for dG <= 0, R* = 2*gamma/dG and G* = G_sphere*c/(4pi/3) when unclamped (modular: factors assumed to satisfy the proved identity); Zeldovich/incubation/rate signs and monotone incubation factor; '
+         'cached factors follow every sequence (length <= 2) of gamma/gbEnergy/site changes; admissibility = validation; available sites = max(N0 - occupied, 0) per site class for every pair of site types.',
+         'sign/monotonicity of edge and corner factors over the whole k range undecided (transcendental); negative clamped barrier on boundary-type sites is a known finding with replayed witness'),
  'C19': ('testCondition of all six condition classes x both inequalities executed on a PrecipitateBase object with a symbolic history: reads the monitored value at pData.n of the model it is '
          'given, latch, interpolated crossing time within [t(n-1), t(n)] (NRA), reset; stop decision of PrecipitateBase.postProcess for every or/and mix of <= 3 conditions; solver-loop stop clause (C05); TTP calculator wiring.',
          'P, E <= 2; model sub-steps of postProcess are arbitrary callables'),
